@@ -99,6 +99,20 @@ using add_const_from_pointer = std::conditional_t<
 template<typename T>
 using remove_cv_ref_t = std::remove_cv_t<std::remove_reference_t<T>>;
 
+// Is sizeof(T) well formed (i.e. T is not void, a function or incomplete)
+template<typename T, typename T_Enable = void>
+struct is_complete_object_helper : std::false_type
+{};
+
+template<typename T>
+struct is_complete_object_helper<
+  T,
+  std::enable_if_t<!std::is_function_v<T> && (sizeof(T) > 0)>> : std::true_type
+{};
+
+template<typename T>
+constexpr bool is_complete_object_v = is_complete_object_helper<T>::value;
+
 template<typename T>
 using c_to_std_array_t =
   std::conditional_t<std::is_array_v<T>,
